@@ -76,12 +76,23 @@ def _literal_items(it):
     """the constants a literal iterable yields: (c0, c1, ..) / [c0, ..] of at most 6 constants, or range(c) / range(a, b) with small literal bounds; else None"""
     if isinstance(it, (ast.Tuple, ast.List)) and 1 <= len(it.elts) <= 6 and all(isinstance(c, ast.Constant) for c in it.elts):
         return list(it.elts)
+    if isinstance(it, (ast.Tuple, ast.List)) and 1 <= len(it.elts) <= 2 and all(_pure_read(c) for c in it.elts):
+        return list(it.elts)   # a pair of plain reads (self.shape[0], self.shape[1]): the two-axis idiom over expressions
     if isinstance(it, ast.Call) and isinstance(it.func, ast.Name) and it.func.id == "range" and not it.keywords and 1 <= len(it.args) <= 2 \
             and all(isinstance(a, ast.Constant) and isinstance(a.value, int) and not isinstance(a.value, bool) for a in it.args):
         lo, hi = (0, it.args[0].value) if len(it.args) == 1 else (it.args[0].value, it.args[1].value)
         if 1 <= hi - lo <= 4:
             return [ast.Constant(value=k) for k in range(lo, hi)]
     return None
+
+
+def _pure_read(e) -> bool:
+    """a name, attribute chain or constant-subscript of one: reading it twice is reading it once"""
+    while isinstance(e, (ast.Attribute, ast.Subscript)):
+        if isinstance(e, ast.Subscript) and not isinstance(e.slice, ast.Constant):
+            return False
+        e = e.value
+    return isinstance(e, ast.Name)
 
 
 def _unroll_comp(self, n):
@@ -98,7 +109,7 @@ def _unroll_comp(self, n):
                     s2.c = c
 
                 def visit_Name(s2, m):
-                    return ast.copy_location(ast.Constant(value=s2.c.value), m) if (m.id == g.target.id and isinstance(m.ctx, ast.Load)) else m
+                    return ast.copy_location(copy.deepcopy(s2.c), m) if (m.id == g.target.id and isinstance(m.ctx, ast.Load)) else m
             return ast.copy_location(ast.List(elts=[S(c).visit(copy.deepcopy(n.elt)) for c in consts], ctx=ast.Load()), n)
     return n
 
@@ -378,7 +389,7 @@ class _Stmts:
                 s2.c = c
 
             def visit_Name(s2, m):
-                return ast.copy_location(ast.Constant(value=s2.c.value), m) if (m.id == k and isinstance(m.ctx, ast.Load)) else m
+                return ast.copy_location(copy.deepcopy(s2.c), m) if (m.id == k and isinstance(m.ctx, ast.Load)) else m
         out = []
         for c in consts:
             out.extend(S(c).visit(copy.deepcopy(b)) for b in st.body)
